@@ -861,6 +861,28 @@ int vf_special_seeds(int res, int nper, H3Index *out, int cap) {
     }
     return m;
 }
+/* cells on the 30 icosahedron edges at nper seed-dependent parameters per edge: the cell that contains the point on the edge and
+ * the cells that contain the point pushed 0.7 of an average cell width to either side (so that cells whose *edges* or *vertices*
+ * lie on the icosahedron edge are met as well as cells it cuts through).  Not deduplicated. */
+int vf_edge_walk_cells(int res, int nper, vf_rng *r, H3Index *out, int cap) {
+    int n = 0;
+    vf_ico_init();
+    ld w = 0.35L / powl(2.6457513L, res); /* ~ average cell width in radians */
+    for (int e = 0; e < 30; e++) {
+        V3 a = VF_ICO_V[VF_ICO_E[e][0]], b = VF_ICO_V[VF_ICO_E[e][1]];
+        V3 nrm = v3_norm(v3_cross(a, b));
+        for (int i = 0; i < nper; i++) {
+            ld t = 0.01L + 0.98L * (ld)vf_unit(r);
+            V3 m = v3_norm(v3_add(v3_scale(a, 1 - t), v3_scale(b, t)));
+            for (int side = -1; side <= 1 && n < cap; side++) {
+                LatLng g = v3_to_ll(v3_norm(v3_add(m, v3_scale(nrm, side * 0.7L * w))));
+                H3Index h;
+                if (!latLngToCell(&g, res, &h)) out[n++] = h;
+            }
+        }
+    }
+    return n;
+}
 /* cells at the quarter points and around the midpoint of each of the 30 icosahedron edges, on the edge and 1e-6 .. 1e-3 rad
  * to either side of it (the face-assignment slivers: where a point is attributed to one of two faces) */
 int vf_edge_offset_seeds(int res, H3Index *out, int cap) {
